@@ -1,6 +1,9 @@
 """C03: AND / OR / NOT and brackets obey Boolean algebra over the result sets."""
 import itertools
 
+import os
+import re
+
 import common
 import corr
 import fstree
@@ -26,6 +29,12 @@ def atoms_for(r):
         "hardlinks = 1", "hardlinks > 1", "length(name) > 5", "length(name) <= 5",
         "modified > '2023-11-15'", "modified <= '2023-11-15'", "modified = '2023-11-15'", "modified != '2023-11-15'",
         "size + 1 > 10", "mode like '%x'",
+        # text is ordered too (lexicographically): `not (name > 'b')` is `name <= 'b'`
+        "name > 'b'", "name <= 'a9'", "name >= 'b1'", "name < 'adir'", "ext >= 'rs'", "ext < 'txt'",
+        "name between 'a5' and 'b2'", "name not between 'a5' and 'b2'",
+        # pattern operators match the text of a value of any type
+        "size like '1%'", "size not like '1%'", "hardlinks =~ '^1$'", "size !=~ '^1'", "is_dir like 'f%'", "is_dir not like 'f%'",
+        "modified like '2023-11-15%'", "modified not like '%00:00:00'", "length(name) like '_'",
     ]
     return r.sample(pool, 3)
 
@@ -129,6 +138,10 @@ def run(ctx):
         for rd in range(rounds):
             r = ctx.rng.fork()
             atoms = atoms_for(r)
+            if rd == 0:
+                atoms = ["name > 'b'", "ext < 'txt'", "size > 10"]     # corpus: the witness of D73 (fixed) comes first
+            if rd == 1:
+                atoms = ["size like '1%'", "is_dir not like 'f%'", "modified like '2023-11-15%'"]     # … and of D74 (fixed)
             sets = []
             ok = True
             for a in atoms:
@@ -138,6 +151,15 @@ def run(ctx):
                     ok = False
                     break
                 sets.append(frozenset(ra["out"].split(b"\0")[:-1]))
+                # ordering atoms over the name: the documented reading is plain lexicographic order of the bytes
+                tm = re.match(r"^name (>|<=|>=|<) '([^']*)'$", a)
+                if tm:
+                    import operator
+                    fn = {">": operator.gt, "<=": operator.le, ">=": operator.ge, "<": operator.lt}[tm.group(1)]
+                    want_a = frozenset(p for p in universe if fn(os.path.basename(p), tm.group(2).encode()))
+                    if sets[-1] != want_a:
+                        ctx.oracle_fail("ordering comparison of a text column is not the lexicographic order", {"argv": ["path from . where %s into list" % a]},
+                                        detail={"extra": sorted(x.decode() for x in sets[-1] - want_a)[:5], "missing": sorted(x.decode() for x in want_a - sets[-1])[:5]})
             if not ok:
                 continue
             nontrivial = any(0 < len(s) < len(universe) for s in sets)
